@@ -2,7 +2,7 @@ SPECIFICATION Spec
 CONSTANTS
   B = 4
   Conns = {0, 1, 2}
-  Versions = {14, 20}
+  Versions = {20}
   ObjUuids = {101, 102}
   SvcUuids = {201}
   Events = {0}
@@ -14,7 +14,7 @@ CONSTANTS
   MaxCookie = 4
   InqBound = 1
   Kinds = {"CreateObject", "DestroyObject", "CreateService", "CreateService2", "DestroyService", "QueryServiceVersion", "QueryServiceInfo", "Sync"}
-  Faults = {"ends", "dropped", "sdc", "sdb", "sdi"}
+  Faults = {"ends", "dropped", "sdb", "sdi"}
   WrongKinds = {}
   MsgBudget = 4
   InitSerial = 0
